@@ -35,7 +35,7 @@ ASSUMPTIONS = [
 ]
 PROBES = ["op.form", "op.leave", "op.ensure", "op.scan", "event_before_response", "event_after_timeout", "event_at_deadline", "nonmatching_event",
           "duplicate_event", "refused", "no_response", "timeout_raised", "cancelled", "already_joined", "not_joined", "scan_result_before_issue",
-          "scan_result_before_response", "scan_result_after_completion", "scan_failed_completion", "repeated_operations", "op.overlap", "overlap.refuse", "overlap.cancel", "overlap.timeout"]
+          "scan_result_before_response", "scan_result_after_completion", "scan_failed_completion", "repeated_operations", "ensure_from_state_1", "ensure_from_state_3", "ensure_from_state_4", "op.overlap", "overlap.refuse", "overlap.cancel", "overlap.timeout"]
 
 RD = (0.02, 1.0, None)
 ED = ("early", 0.5, "in", "tie", "late")  # offsets of an event
@@ -122,7 +122,7 @@ def run(scenario, params, tape, detail=False):
     def fid(name):
         return ncp.cmds[name][0]
 
-    async def op_status(ez, op, status, rd, evs, cancel_at=None, label=""):
+    async def op_status(ez, op, status, rd, evs, cancel_at=None, label="", state0=0):
         """evs: [(kind 'match'|'other', offset key)]"""
         nev[0] += 1
         probe("op." + op)
@@ -140,7 +140,11 @@ def run(scenario, params, tape, detail=False):
             probe("duplicate_event")
         script[cmdname] = {"status": status, "rd": rd, "events": events,
                            "rsp_vals": (St("OK" if status == "OK" else ("NOT_JOINED" if status == "not_joined" else "INVALID_CALL")),)}
-        net_state[0] = 0
+        # what networkState reports when bring-up asks: anything but JOINED_NETWORK (2) means the stack still has to be initialised -
+        # also JOINING (1), JOINED_NO_PARENT (3) or LEAVING (4) left over from an earlier, unfinished operation
+        net_state[0] = state0
+        if state0:
+            probe("ensure_from_state_%d" % state0)
         f0 = len(frames)
         t_issue = loop.time()
         res = {}
@@ -199,7 +203,9 @@ def run(scenario, params, tape, detail=False):
             if out[0] == "ok":
                 viol.append(("C17.both", "returned-after-refusal", f"{tag}: the call returned although the command was refused"))
         else:
-            if t_resp is None:
+            if t_resp is None and out[0] == "ok":
+                viol.append(("C17.both", "returned-without-command", f"{tag}: the call returned {out[1]!r} at t={out[2]:.4f} although its command never reached the NCP (no response, no event awaited)"))
+            elif t_resp is None:
                 viol.append(("C17.both", "harness", f"{tag}: response not delivered"))
             else:
                 deadline = t_resp + 10.0
@@ -429,6 +435,10 @@ def run(scenario, params, tape, detail=False):
             for st_ in ("not_joined",):
                 probe("not_joined")
                 await op_status(ez, "ensure", st_, 0.02, [("match", 1)], label="not joined")
+            for state0 in (1, 3, 4):
+                await op_status(ez, "ensure", "OK", 0.02, [("match", 1)], label=f"networkState={state0}", state0=state0)
+                await op_status(ez, "ensure", "refuse", 0.02, [], label=f"networkState={state0}", state0=state0)
+                await op_status(ez, "ensure", "OK", 0.02, [], label=f"networkState={state0}", state0=state0)
         elif scenario == "overlap":
             for op in ("form", "leave", "ensure"):
                 for a_mode in ("refuse", "cancel", "timeout"):
@@ -473,7 +483,8 @@ def run(scenario, params, tape, detail=False):
                 else:
                     op = ("form", "leave", "ensure")[k]
                     evs = [(("match", "other")[tape.draw(2, "ek")], tape.draw(len(ED), "ed")) for _ in range(tape.draw(4, "nev"))]
-                    await op_status(ez, op, ("OK", "OK", "OK", "refuse")[tape.draw(4, "st")], RD[(0, 0, 1, 2)[tape.draw(4, "rd")]], evs, cancel_at)
+                    await op_status(ez, op, ("OK", "OK", "OK", "refuse")[tape.draw(4, "st")], RD[(0, 0, 1, 2)[tape.draw(4, "rd")]], evs, cancel_at,
+                                    state0=(0, 0, 1, 3, 4)[tape.draw(5, "state0")] if op == "ensure" else 0)
 
     outcome, val = rig.run(main())
     if outcome != "done":
